@@ -39,14 +39,15 @@ ASSUMPTIONS = [
     "alone is not asserted (the mapping documents its absence), unsetting image_ref must clear both",
     "stitch_node has no absent state (boolean always written): unset is not asserted for it",
     "network_service_info (ComponentSliver setter) is structural: exercised through nesting, not through set_property",
-    "values are drawn from each codec's faithful domain (non-default JSONField objects, non-empty strings other than "
-    "'None', Location lat/lon != 0.0): single-value codec fidelity is C03's subject",
+    "values are drawn from each codec's faithful domain (non-default JSONField objects, Location lat/lon != 0.0): "
+    "single-value codec fidelity is C03's subject. Plain text values include the empty string and the words "
+    "'None'/'none'/'null' (the in-memory backends keep them as they are; they were excluded in the first version)",
     "sub-interfaces only below DedicatedPort interfaces (the only place the graph reader looks for them)",
     "an absent child container and an empty one are the same structure",
     "setting one property may rewrite StitchNode (set_property writes a fresh sliver's dictionary); frame effects on "
     "other properties are not part of the statement and are not asserted",
 ]
-BUDGET = {"quick": 12000, "thorough": 250000}
+BUDGET = {"quick": 12000, "thorough": 120000}
 
 SIG_GATEWAY = "C02/absent-reads-as-empty-object/gateway"
 SIG_SUBIF = "C02/graph/interface/interfaces:lost"
